@@ -18,6 +18,7 @@ into `None`, so the two cannot be told apart on a `Dataset`).  Core Lean only.
 -/
 import Rpft.Str
 import Rpft.Csv
+import Rpft.JsonText
 namespace Rpft.Sheets
 open Rpft
 
@@ -252,5 +253,115 @@ def loadCsv (name : Str) (bytes : ByteArray) : Except LoadErr Sheet :=
   match Csv.decodeUtf8 bytes with
   | none => .error (.csv .decode)
   | some text => loadCsvText name text
+
+/-! ### JSON files: bytes ↔ workbook (`to_json` + `cli.convert` out, `load_json` + `JSONSheetReader` in) -/
+
+section JsonFiles
+open Rpft.JsonText
+
+def jvsOfList : List JV → JVs
+  | [] => .nil
+  | x :: xs => .cons x (jvsOfList xs)
+
+def jmsOfList : List (Str × JV) → JMs
+  | [] => .nil
+  | (k, v) :: ms => .cons k v (jmsOfList ms)
+
+/-- a `table.dict` value as the JSON value `json.dumps` sees -/
+def contentJV : JContent → JV
+  | .objs rows => .arr (jvsOfList (rows.map (fun r => .obj (jmsOfList (r.map (fun kv => (kv.1, JV.str kv.2)))))))
+  | .lists rows => .arr (jvsOfList (rows.map (fun r => .arr (jvsOfList (r.map JV.str)))))
+
+/-- `to_json`: `book = {"meta": {"version": "0.1.0"}, "sheets": {name: sheet.table.dict …}}`
+(the sheets of a reader are the values of a dict: their names are distinct) -/
+def bookJV (w : Workbook) : JV :=
+  .obj (.cons "meta".toList (.obj (.cons "version".toList (.str "0.1.0".toList) .nil))
+    (.cons "sheets".toList (.obj (jmsOfList (w.map (fun s => (s.name, contentJV (toJson s)))))) .nil))
+
+/-- `json.dumps(book, ensure_ascii=False, indent=2)` -/
+def toJsonText (w : Workbook) : Str := dumps (bookJV w)
+
+/-- `cli.convert`: `export.write(bytes(content, "utf-8"))` -/
+def toJsonBytes (w : Workbook) : ByteArray := Csv.encodeUtf8 (toJsonText w)
+
+def strCells : JVs → Option (List Str)
+  | .nil => some []
+  | .cons (.str s) xs => (strCells xs).map (s :: ·)
+  | .cons _ _ => none
+
+def strMembers : JMs → Option (List (Str × Str))
+  | .nil => some []
+  | .cons k (.str v) ms => (strMembers ms).map ((k, v) :: ·)
+  | .cons _ _ _ => none
+
+def listRows : JVs → Option (List (List Str))
+  | .nil => some []
+  | .cons (.arr a) xs =>
+    match strCells a, listRows xs with
+    | some r, some rs => some (r :: rs)
+    | _, _ => none
+  | .cons _ _ => none
+
+def objRows : JVs → Option (List (List (Str × Str)))
+  | .nil => some []
+  | .cons (.obj m) xs =>
+    match strMembers m, objRows xs with
+    | some r, some rs => some (r :: rs)
+    | _, _ => none
+  | .cons _ _ => none
+
+/-- the values `table.dict = content` is modelled for: a list of objects / of lists, text cells
+(`Dataset._set_dict` looks at `pickle[0]` to choose) -/
+def contentOf : JV → Option JContent
+  | .arr .nil => some (.objs [])
+  | .arr (.cons (.obj m) rest) => (objRows (.cons (.obj m) rest)).map JContent.objs
+  | .arr (.cons (.arr a) rest) => (listRows (.cons (.arr a) rest)).map JContent.lists
+  | _ => none
+
+def jmLookup (k : Str) : JMs → Option JV
+  | .nil => none
+  | .cons k' v ms => if k' = k then some v else jmLookup k ms
+
+inductive JsonLoadErr
+  | decode                       -- UnicodeDecodeError
+  | json (e : DErr)              -- json.JSONDecodeError (or a value outside the model)
+  | shape                        -- no "sheets" object / a content that is not a list of text rows
+  | sheet (e : SErr)             -- tablib refused a row
+deriving DecidableEq, Repr
+
+/-- `for name, content in data["sheets"].items(): table.dict = content` -/
+def sheetsOfMembers : JMs → Except JsonLoadErr Workbook
+  | .nil => .ok []
+  | .cons name content rest =>
+    match contentOf content with
+    | none => .error .shape
+    | some c =>
+      match readJson name c with
+      | .error e => .error (.sheet e)
+      | .ok s =>
+        match sheetsOfMembers rest with
+        | .ok ss => .ok (s :: ss)
+        | .error e => .error e
+
+/-- text mode without `newline=`: CRLF and CR arrive as LF (`load_json` opens the file that way) -/
+def universalNewlines (text : Str) : Str := replace1 '\r' ['\n'] (replace2 '\r' '\n' ['\n'] text)
+
+def loadJsonText (text : Str) : Except JsonLoadErr Workbook :=
+  match loads text with
+  | .error e => .error (.json e)
+  | .ok (.obj top) =>
+    match jmLookup "sheets".toList top with
+    | some (.obj sheets) => sheetsOfMembers sheets
+    | _ => .error .shape
+  | .ok _ => .error .shape
+
+/-- `JSONSheetReader(filename)`: `load_json` (`open(path, "r", encoding="utf-8")` + `json.load`) and
+the loop over `data["sheets"]` -/
+def loadJson (bytes : ByteArray) : Except JsonLoadErr Workbook :=
+  match Csv.decodeUtf8 bytes with
+  | none => .error .decode
+  | some text => loadJsonText (universalNewlines text)
+
+end JsonFiles
 
 end Rpft.Sheets
